@@ -66,6 +66,8 @@ func Mix(seed int64, prop string, run int) *rand.Rand {
 // properties whose requests may also reach the authorizer through SerializePolicies / LoadPolicies
 var viaLoad = map[string]bool{"C02": true, "C03": true, "C04": true, "C12": true, "C13": true}
 
+var queryFirst = map[string]bool{"C02": true, "C03": true, "C04": true, "C12": true, "C13": true}
+
 func Generate(id string, seed int64, run int, tier string) *vm.Plan {
 	s := Registry[id]
 	r := Mix(seed, id, run)
@@ -77,6 +79,15 @@ func Generate(id string, seed int64, run int, tier string) *vm.Plan {
 		for i := range p.Ops {
 			if k := p.Ops[i].K; (k == "verify" || k == "azadd") && p.Ops[i].Az != nil && r.Intn(3) == 0 {
 				p.Ops[i].Flags = append(p.Ops[i].Flags, "via-load")
+			}
+		}
+	}
+	if queryFirst[id] && r.Intn(4) == 0 {
+		// the verifier queries its authorizer before it authorizes (a fresh authorizer only: a query
+		// on the way evaluates the world, which must not change what Authorize concludes)
+		for i := range p.Ops {
+			if p.Ops[i].K == "verify" && !p.Ops[i].Has("noauth") && r.Intn(2) == 0 {
+				p.Ops[i].Flags = append(p.Ops[i].Flags, "query-before")
 			}
 		}
 	}
